@@ -1,0 +1,39 @@
+//go:build verif
+
+// Contracts (machine-checked specifications) for package main, consumed by
+// the verification-condition generator in /verif/govc. Comment-only.
+package main
+
+//@ -- The effect trace of a path is the sequence of calls to dependencies (with their effect class)
+//@ -- and to functions under contract ("call:<name>"). forallEv/existsEv range over it.
+//@ define effectful(j) = evKind(j, "fs-read") || evKind(j, "fs-write") || evKind(j, "io-write") || evKind(j, "stdout") || evKind(j, "exit")
+//@ define errMsg(e) = uf("errMsg", String, e)
+
+//@ func main.run -> err
+//@   props C17 C18
+//@   safety C19
+//@   effect fs-read fs-write io-write
+//@   modifies H:registry., H:moq.Mocker#, H:template., M:, A:, H:bytes.Buffer#
+//@   ensures{C19} not-enough-args: len(flags.args) < 2 ==> err != nil && errMsg(err) == "not enough arguments" && forallEv(i, !effectful(i))
+//@   ensures{C15,C18} rm-only-on-request: forallEv(i, evIs(i, "os.Remove") ==> flags.remove && flags.outFile != "" && evArg(i, 0) == flags.outFile)
+//@   ensures{C15} rm-first: forallEv(i, j, evIs(i, "os.Remove") && effectful(j) ==> i <= j)
+//@   ensures{C15} rm-happens: len(flags.args) >= 2 && flags.remove && flags.outFile != "" ==> existsEv(i, evIs(i, "os.Remove"))
+//@   ensures{C15} rm-before-load: forallEv(i, j, evIs(i, "os.Remove") && evIs(j, "call:moq.New") ==> i < j)
+//@   ensures{C15,C17} rm-error-returned: forallEv(i, evIs(i, "os.Remove") && evRes(i) != nil && !uf("errors.Is", Bool, evRes(i), global("os.ErrNotExist")) ==> err == evRes(i) && forallEv(j, j > i ==> !effectful(j)))
+//@   ensures{C18} fs-writes-named: forallEv(i, evKind(i, "fs-write") ==> evIs(i, "os.Remove") || (evIs(i, "os.MkdirAll") && evArg(i, 0) == uf("filepath.Dir", String, flags.outFile)) || (evIs(i, "os.WriteFile") && evArg(i, 0) == flags.outFile))
+//@   ensures{C18} no-out-no-write: flags.outFile == "" ==> forallEv(i, !evKind(i, "fs-write"))
+//@   ensures{C17} file-only-after-mock-ok: forallEv(i, evIs(i, "os.MkdirAll") || evIs(i, "os.WriteFile") ==> existsEv(j, j < i && evIs(j, "call:moq.Mocker.Mock") && evRes(j) == nil))
+//@   ensures{C17} file-written-last: err == nil && flags.outFile != "" ==> existsEv(i, evIs(i, "os.WriteFile") && evRes(i) == nil && forallEv(j, j > i ==> !effectful(j)) && existsEv(k, k < i && evIs(k, "os.MkdirAll") && evRes(k) == nil))
+//@   ensures{C17} mkdir-before-write: forallEv(i, evIs(i, "os.WriteFile") ==> existsEv(k, k < i && evIs(k, "os.MkdirAll") && evRes(k) == nil))
+//@   ensures{C17} one-file-write: forallEv(i, j, evIs(i, "os.WriteFile") && evIs(j, "os.WriteFile") ==> i == j)
+//@   ensures{C17} one-mock-call: forallEv(i, j, evIs(i, "call:moq.Mocker.Mock") && evIs(j, "call:moq.Mocker.Mock") ==> i == j)
+//@   ensures{C17} buffered-when-out: forallEv(i, evIs(i, "call:moq.Mocker.Mock") ==> (flags.outFile != "" ==> fresh(evArg(i, 1))) && (flags.outFile == "" ==> evArg(i, 1) == global("os.Stdout")))
+//@   ensures{C17} no-direct-stdout: forallEv(i, !evKind(i, "stdout") && !evKind(i, "exit") && !evIs(i, "io.Writer.Write"))
+//@   ensures{C17,C19} new-error-returned: forallEv(i, evIs(i, "call:moq.New") && evRes(i, 1) != nil ==> err == evRes(i, 1) && forallEv(j, j > i ==> !effectful(j)))
+//@   ensures{C17,C19} mock-error-returned: forallEv(i, evIs(i, "call:moq.Mocker.Mock") && evRes(i) != nil ==> err == evRes(i) && forallEv(j, j > i ==> !effectful(j)))
+//@   ensures{C17} mkdir-error-returned: forallEv(i, evIs(i, "os.MkdirAll") && evRes(i) != nil ==> err == evRes(i) && forallEv(j, j > i ==> !effectful(j)))
+//@   ensures{C17} write-error-returned: forallEv(i, evIs(i, "os.WriteFile") ==> err == evRes(i))
+//@   ensures{C17} success-means-generated: err == nil ==> existsEv(j, evIs(j, "call:moq.Mocker.Mock") && evRes(j) == nil)
+//@   ensures{C08,C10,C16} config-plumbed: forallEv(i, evIs(i, "call:moq.New") ==> evArg(i, 0).SrcDir == old(flags.args[0]) && evArg(i, 0).PkgName == flags.pkgName && evArg(i, 0).Formatter == flags.formatter && evArg(i, 0).StubImpl == flags.stubImpl && evArg(i, 0).SkipEnsure == flags.skipEnsure && evArg(i, 0).WithResets == flags.withResets)
+//@   ensures{C20} args-plumbed: forallEv(i, evIs(i, "call:moq.Mocker.Mock") ==> evArg(i, 2) == flags.args[1:] && existsEv(j, j < i && evIs(j, "call:moq.New") && evRes(j, 0) == evArg(i, 0)))
+//@   ensures{C17} file-content-is-buffer: forallEv(i, evIs(i, "os.WriteFile") ==> existsEv(j, j < i && evIs(j, "call:moq.Mocker.Mock") && existsEv(b, b > j && b < i && evIs(b, "(*bytes.Buffer).Bytes") && evArg(b, 0) == evArg(j, 1) && evArg(i, 1) == evRes(b))))
